@@ -25,6 +25,7 @@ def history(writer, blocked, nrec, fins, maxlen, readable=True):
         f = RopeFile(readable=readable)
         ns = [sym_int('len%d' % i, 1, maxlen) for i in range(nrec)]
         rp = {'kind': 'history', 'args': {'writer': writer, 'blocked': blocked, 'lengths': [ev(n) for n in ns], 'fins': list(fins), 'readable': readable}}
+        core.set_fallback(rp, 'C11/concretised')
         if writer == 'vbs':
             w = m.VbsWriter(f, blocked=blocked)
             recs = [Source('rec%d' % i, 'b', n).rope() for i, n in enumerate(ns)]
